@@ -61,6 +61,9 @@ structure Cache (K V : Type) where
   soft   : Nat
   omLog  : List K
 
+/-- the state of one cache (name used by the concurrency model C03) -/
+abbrev State (K V : Type) := Cache K V
+
 /-- `LRI(max_size, on_miss=…)` / `LRU(…)` without initial values -/
 def Cache.init (lru : Bool) (max : Nat) (onMiss : Option (K → V)) : Cache K V :=
   ⟨lru, max, onMiss, [], [], 0, 0, 0, []⟩
